@@ -136,10 +136,29 @@ def run(ctx):
     oi, om = run_impl(ol), run_model(ol)
     ctx.count(len(ol))
     odiff = [k for k in range(len(ol)) if oi[k] != om[k]]
+    # the same kind of sequences with the map formatted in between (judged by the plain specification only: formatting changes nothing,
+    # and the text formatted at the end holds exactly the fields that are stored)
+    fl2 = []
+    for _ in range(300 if ctx.tier == "quick" else 4000):
+        ops = []
+        for _ in range(rng.randint(2, 25)):
+            k = rng.random(); n = rng.choice(hnames[:10])
+            if k < 0.4:
+                ops.append("set,%s,%s" % (hx(U(n)), hx(U(rng.choice(["v1", "value two", "x y z"])))))
+            elif k < 0.6:
+                ops.append("fmt," + hx(U(n)))
+            elif k < 0.8:
+                ops.append("get," + hx(U(n)))
+            else:
+                ops.append("remove," + hx(U(n)))
+        fl2.append("hdrs.fmtops\t" + ";".join(ops))
+    fi2 = run_impl(fl2)
+    ctx.count(len(fl2))
+    ol_model = ol; ol = ol + fl2; oi_all = oi + fi2
     # the same sequences against the plainest specification: one value per name (compared without regard to letter case), a set replaces
     # it, a remove takes it away, a get reads it
     ops_bad = []
-    for line, r in zip(ol, oi):
+    for line, r in zip(ol, oi_all):
         want, store = [], {}
         got = r.split("\t")[0].split(";") if r.split("\t")[0] else []
         seq = line.split("\t")[1].split(";") if line.split("\t")[1] else []
@@ -152,10 +171,16 @@ def run(ctx):
                 if g != "badname":
                     store[key] = unhx(p[2])
                 want.append(g)
+            elif p[0] == "fmt":
+                want.append("unit")
             elif p[0] == "get":
                 want.append("some:" + hx(store[key]) if key in store else "none")
             else:
                 want.append("some:" + hx(store.pop(key)) if key in store else "none")
+        blk = unhx(r.split("\t")[1]) if "\t" in r else b""
+        shown = [x.split(b":")[0].lower() for x in blk.split(b"\r\n") if x and not x.startswith((b" ", b"\t"))]
+        if line.startswith("hdrs.fmtops") and want == got and shown != list(store.keys()):
+            ops_bad.append((line, "the formatted header section shows the fields %r, stored are %r" % ([x.decode("latin-1") for x in shown], [x.decode("latin-1") for x in store.keys()]))); continue
         if want != got:
             k = next(i for i, (a, b) in enumerate(zip(want, got)) if a != b)
             ops_bad.append((line, "operation %d (%s) answers %s, one value per name gives %s" % (k, seq[k][:60], got[k][:60], want[k][:60])))
